@@ -90,6 +90,12 @@ class Script:
     def resolve(self, m, t, p=0):
         self.lines.append("R %d %d %d %s" % (p, m, len(t), " ".join(map(str, t))))
 
+    def layout(self, p=0):
+        self.lines.append("L %d" % p)
+
+    def reads(self, m, p=0):
+        self.lines.append("RT %d %d" % (p, m))
+
     def raw(self, line):
         self.lines.append(line)
 
@@ -167,8 +173,12 @@ def registry_script(sid, bindings, classes, edges, methods, defs, abstract=(), s
     for m, d, vp in defs:
         s.defn(m, d, vp)
     s.update()
+    if "L" in observe:
+        s.layout()
     for m, shape, vp in methods:
         for ob in observe:
+            if ob == "RT":
+                s.reads(m)
             if ob == "T":
                 s.table(m)
             elif ob == "CT":
